@@ -54,7 +54,7 @@ def run(ctx):
             flines[p[1]] = line.rstrip("\n")
     # which variant of the included-range override does /repo have? (see fixes/C04-range-override-in-padding.diff)
     src = open(os.path.join(os.environ.get("VERIF_REPO", "/repo"), "lib/src/get_changed_ranges.c")).read()
-    variant = "--override-compared-end" if "iterator_compared_end_byte" in src else ""
+    variant = "--override-compared-end" if "iterator_compared_span" in src else ""
     ctx.coverage["override_variant"] = variant or "as-is"
     rc, mout = sh("%s %s < %s" % (driver, variant, ops), timeout=3000)
     rc2, cout = sh([cunit, ops], timeout=3000)
